@@ -98,7 +98,7 @@ qr(const AbstractTensor<Expr,DIM0> &src, Tensor<T,M,N> &Q, Tensor<T,N,M> &R) {
 }
 
 // QR MGSR - vector pivot
-template<QRCompType QRType = QRCompType::MGSR, typename Expr, size_t DIM0, typename T, size_t M, size_t N,
+template<QRCompType QRType = QRCompType::MGSRPiv, typename Expr, size_t DIM0, typename T, size_t M, size_t N,
     enable_if_t_<is_tensor_v<Expr> && QRType == QRCompType::MGSRPiv,bool> = false>
 FASTOR_INLINE
 void
@@ -108,7 +108,7 @@ qr(const AbstractTensor<Expr,DIM0> &src, Tensor<T,M,N> &Q, Tensor<T,N,M> &R, Ten
     internal::qr_mgsr_dispatcher(A,Q,R);
 }
 
-template<QRCompType QRType = QRCompType::MGSR, typename Expr, size_t DIM0, typename T, size_t M, size_t N,
+template<QRCompType QRType = QRCompType::MGSRPiv, typename Expr, size_t DIM0, typename T, size_t M, size_t N,
     enable_if_t_<!is_tensor_v<Expr> && QRType == QRCompType::MGSRPiv,bool> = false>
 FASTOR_INLINE
 void
@@ -121,7 +121,7 @@ qr(const AbstractTensor<Expr,DIM0> &src, Tensor<T,M,N> &Q, Tensor<T,N,M> &R, Ten
 }
 
 // QR MGSR - matrix pivot
-template<QRCompType QRType = QRCompType::MGSR, typename Expr, size_t DIM0, typename T, size_t M, size_t N,
+template<QRCompType QRType = QRCompType::MGSRPiv, typename Expr, size_t DIM0, typename T, size_t M, size_t N,
     enable_if_t_<is_tensor_v<Expr> && QRType == QRCompType::MGSRPiv,bool> = false>
 FASTOR_INLINE
 void
@@ -131,7 +131,7 @@ qr(const AbstractTensor<Expr,DIM0> &src, Tensor<T,M,N> &Q, Tensor<T,N,M> &R, Ten
     internal::qr_mgsr_dispatcher(A,Q,R);
 }
 
-template<QRCompType QRType = QRCompType::MGSR, typename Expr, size_t DIM0, typename T, size_t M, size_t N,
+template<QRCompType QRType = QRCompType::MGSRPiv, typename Expr, size_t DIM0, typename T, size_t M, size_t N,
     enable_if_t_<!is_tensor_v<Expr> && QRType == QRCompType::MGSRPiv,bool> = false>
 FASTOR_INLINE
 void
@@ -156,19 +156,19 @@ void
 qr(const AbstractTensor<Expr,DIM0> &src, Tensor<T,M,N> &Q, Tensor<T,N,M> &R) {
     static_assert(QRType==QRCompType::MGSR, "QR FACTORISATION USING HOUSEHOLDER REFLECTIONS IS NOT IMPLEMENETED YET");
 }
-template<QRCompType QRType = QRCompType::MGSR, typename Expr, size_t DIM0, typename T, size_t M, size_t N,
+template<QRCompType QRType = QRCompType::MGSRPiv, typename Expr, size_t DIM0, typename T, size_t M, size_t N,
     enable_if_t_<QRType != QRCompType::MGSRPiv,bool> = false>
 FASTOR_INLINE
 void
 qr(const AbstractTensor<Expr,DIM0> &src, Tensor<T,M,N> &Q, Tensor<T,N,M> &R, Tensor<size_t,M> &P) {
-    static_assert(QRType==QRCompType::MGSR, "QR FACTORISATION USING HOUSEHOLDER REFLECTIONS IS NOT IMPLEMENETED YET");
+    static_assert(QRType==QRCompType::MGSRPiv, "QR FACTORISATION WITH A PIVOT ARGUMENT REQUIRES QRCompType::MGSRPiv");
 }
-template<QRCompType QRType = QRCompType::MGSR, typename Expr, size_t DIM0, typename T, size_t M, size_t N,
+template<QRCompType QRType = QRCompType::MGSRPiv, typename Expr, size_t DIM0, typename T, size_t M, size_t N,
     enable_if_t_<QRType != QRCompType::MGSRPiv,bool> = false>
 FASTOR_INLINE
 void
 qr(const AbstractTensor<Expr,DIM0> &src, Tensor<T,M,N> &Q, Tensor<T,N,M> &R, Tensor<T,M,N> &P) {
-    static_assert(QRType==QRCompType::MGSR, "QR FACTORISATION USING HOUSEHOLDER REFLECTIONS IS NOT IMPLEMENETED YET");
+    static_assert(QRType==QRCompType::MGSRPiv, "QR FACTORISATION WITH A PIVOT ARGUMENT REQUIRES QRCompType::MGSRPiv");
 }
 //-----------------------------------------------------------------------------------------------------------//
 //-----------------------------------------------------------------------------------------------------------//
